@@ -76,10 +76,16 @@ def k19_match(ctx, pid: str):
         emit(ctx, run_paths(ctx, fi, make_args, [N - 1], hooks=hooks, post=post), fi.where(), "topology=%s:" % topo)
     ctx.report.floor("K19.topology-flag", 4)
     # the per-class pattern is compiled from the class's own structure()
-    gr = p.get_func("moclo.core._structured.StructuredRecord._get_regex")
-    srcs = [p.modules[gr.module.name].segment(n) for n in ast.walk(gr.node) if isinstance(n, ast.Call) and isinstance(n.func, ast.Name) and n.func.id == "DNARegex"]
+    from .roles import _is_pattern_compiler
+
+    gr = regex_getter(p)
+    compiles = [n for n in ast.walk(gr.node) if isinstance(n, ast.Call) and _is_pattern_compiler(p, gr, n.func)]
+    srcs = [p.modules[gr.module.name].segment(n) for n in compiles]
     cls_name = gr.node.args.args[0].arg if gr.node.args.args else "cls"
-    ok = bool(srcs) and all(re.sub(r"\s", "", s) in ("DNARegex(%s.structure())" % cls_name,) for s in srcs)
+    ok = bool(compiles) and all(
+        len(n.args) == 1 and not n.keywords and isinstance(n.args[0], ast.Call) and not n.args[0].args and not n.args[0].keywords
+        and isinstance(n.args[0].func, ast.Attribute) and n.args[0].func.attr == "structure"
+        and isinstance(n.args[0].func.value, ast.Name) and n.args[0].func.value.id == cls_name for n in compiles)
     ctx.report.ob("K19.own-structure", gr.qualname, ok, "the pattern must be compiled from cls.structure(): %r" % (srcs,), gr.where())
 
 
@@ -330,16 +336,53 @@ def helper_rules(ctx, rule: str):
     if cc.owner is not None and cc.kind != "staticmethod":
         lead = (cc.owner,) if cc.kind == "classmethod" else (AObj(cc.owner, {}, name="x"),)
 
+    def self_fed_memos():
+        """module-level sets that only this function feeds, with the value it was asked about, once every check has
+        passed (the `.add(<parameter>)` calls are top-level statements after the last raise): finding a value in such a
+        set means an earlier call with the same value ran to the end -- that path repeats that call's verdict"""
+        params = [a.arg for a in cc.node.args.posonlyargs + cc.node.args.args]
+        names = set()
+        last_raise = max([n.lineno for n in ast.walk(cc.node) if isinstance(n, ast.Raise)] or [0])
+        for st in cc.node.body:
+            if isinstance(st, ast.Expr) and isinstance(st.value, ast.Call) and isinstance(st.value.func, ast.Attribute) and st.value.func.attr == "add" \
+                    and isinstance(st.value.func.value, ast.Name) and len(st.value.args) == 1 and isinstance(st.value.args[0], ast.Name) \
+                    and st.value.args[0].id in params and st.lineno > last_raise:
+                g = st.value.func.value.id
+                raw = cc.module.assigns.get(g)
+                if isinstance(raw, ast.Call) and isinstance(raw.func, ast.Name) and raw.func.id == "set" and not raw.args:
+                    names.add(g)
+        for g in list(names):
+            for m in p.modules.values():
+                for n in ast.walk(m.tree):
+                    inside = m is cc.module and cc.node.lineno <= getattr(n, "lineno", 0) <= (cc.node.end_lineno or 0)
+                    if isinstance(n, ast.Name) and n.id == g and not inside and not (m is cc.module and isinstance(n.ctx, ast.Store)):
+                        names.discard(g)  # somebody else touches it
+                    if isinstance(n, ast.alias) and n.name == g:
+                        names.discard(g)
+            uses = [n for n in ast.walk(cc.node) if isinstance(n, ast.Name) and n.id == g]
+            tests = [n for n in ast.walk(cc.node) if isinstance(n, ast.Compare) and len(n.ops) == 1 and isinstance(n.ops[0], (ast.In, ast.NotIn))
+                     and isinstance(n.comparators[0], ast.Name) and n.comparators[0].id == g]
+            if len(uses) != len(tests) + 1:
+                names.discard(g)  # used for something besides the membership test and the one add
+        return names
+
+    memos = self_fed_memos()
+    all_in_tests = [n for n in ast.walk(cc.node) if isinstance(n, ast.Compare) and any(isinstance(o_, (ast.In, ast.NotIn)) for o_ in n.ops)]
+    memo_only = bool(memos) and all(isinstance(n.comparators[0], ast.Name) and n.comparators[0].id in memos for n in all_in_tests)
+
+    def memo_hit(o):
+        return memo_only and any(t.startswith("bool in(") and v is True or t.startswith("bool not(in(") and v is False for t, v in o.path.choices)
+
     def make_args2(I):
         return lead + (AEnzymeV(True), "SomeClass"), {}
 
-    emit(ctx, run_paths(ctx, cc, make_args2, [], post=lambda I, o: [(rule + ".cutter-check", cc.qualname, o.kind == "return" and o.value is None,
+    emit(ctx, run_paths(ctx, cc, make_args2, [], post=lambda I, o: [] if memo_hit(o) else [(rule + ".cutter-check", cc.qualname, o.kind == "return" and o.value is None,
                                                                 "a 5'-overhang, known, non-blunt cutter must be accepted: %r" % (o,))]), cc.where())
 
     def make_args3(I):
         return lead + (NotImplemented, "SomeClass"), {}
 
-    emit(ctx, run_paths(ctx, cc, make_args3, [], post=lambda I, o: [(rule + ".cutter-check", cc.qualname + "#undeclared", o.kind == "raise",
+    emit(ctx, run_paths(ctx, cc, make_args3, [], post=lambda I, o: [] if memo_hit(o) else [(rule + ".cutter-check", cc.qualname + "#undeclared", o.kind == "raise",
                                                                 "a class without cutter must be refused: %r" % (o,))]), cc.where())
 
 
@@ -372,7 +415,8 @@ def assembly_layering_rule(ctx, rule: str):
 
     getter_name = regex_getter(p).name
     n = 0
-    for fi in layer_functions(p):
+    layer = layer_functions(p)
+    for fi in layer:
         m = fi.module
         mine = []
         for node in ast.walk(fi.node):
@@ -382,7 +426,7 @@ def assembly_layering_rule(ctx, rule: str):
             elif isinstance(node, ast.Call) and isinstance(node.func, ast.Attribute) and node.func.attr in ("span", "group") and not (
                     isinstance(node.func.value, ast.Name) and node.func.value.id in ("match", "m")):
                 why = "does span/group arithmetic on a structure match"
-            elif isinstance(node, ast.Attribute) and node.attr == "seq" and isinstance(node.ctx, ast.Load):
+            elif isinstance(node, ast.Attribute) and node.attr == "seq" and isinstance(node.ctx, ast.Load) and _is_input_record(p, fi, node.value, layer):
                 why = "reads the raw sequence of a record (linear coordinates: where the origin sits then matters)"
             elif isinstance(node, ast.BinOp) and isinstance(node.op, (ast.LShift, ast.RShift)):
                 why = "rotates a record itself"
@@ -397,6 +441,60 @@ def assembly_layering_rule(ctx, rule: str):
              "the assembly %s (`%s`): fragments and overhangs must come from the accessors" % (mine[0][1], re.sub(r"\s+", " ", m.segment(mine[0][0]) or "")[:80]) if mine else "",
              "%s:%d" % (m.relpath, mine[0][0].lineno if mine else fi.node.lineno))
     r.floor(rule, 4)
+
+
+def _is_input_record(p, fi: FuncInfo, recv: ast.expr, layer, depth: int = 2) -> bool:
+    """may `recv` (whose .seq is read in a function of the assembly layer) be the record of a module or of the vector?
+    Yes when it is reached through `.record`, or is a local / parameter fed from such an expression; a record the layer
+    built itself (a concatenation, the product) and the fields of the layer's own value objects are not inputs."""
+    def mentions_record(e) -> bool:
+        return any(isinstance(x, ast.Attribute) and x.attr == "record" for x in ast.walk(e))
+
+    if mentions_record(recv):
+        return True
+    root, _path = chain_of(recv)
+    if root is None:
+        return False
+    params = [a.arg for a in fi.node.args.posonlyargs + fi.node.args.args]
+    if root in params:
+        if params and root == params[0] and fi.owner is not None and fi.kind not in ("staticmethod",):
+            return False  # self of a class of the layer: its own field
+        if fi.owner is not None and fi.name in ("__eq__", "__ne__", "__lt__", "__le__", "__gt__", "__ge__") and len(params) == 2 and root == params[1]:
+            # the other operand of a comparison of two value objects of the layer: the same field of the same class (a
+            # record of an input is no such object -- the classes that wrap records compare by identity, rule C03.identity)
+            own_fields = {t.attr for n in ast.walk(fi.owner.node) if isinstance(n, ast.Assign) for t in n.targets
+                          if isinstance(t, ast.Attribute) and isinstance(t.value, ast.Name) and t.value.id == "self"}
+            if isinstance(recv, ast.Attribute) or "seq" in own_fields:
+                if "seq" in own_fields and not any(isinstance(b, (ast.Name, ast.Attribute)) and ast.unparse(b).endswith("Record") for b in fi.owner.node.bases):
+                    return False
+        if depth <= 0:
+            return True
+        k = params.index(root)
+        found_call = False
+        for g in layer:
+            for c in ast.walk(g.node):
+                if not isinstance(c, ast.Call):
+                    continue
+                f = c.func
+                nm = f.attr if isinstance(f, ast.Attribute) else f.id if isinstance(f, ast.Name) else None
+                if nm != fi.name:
+                    continue
+                off = 1 if (fi.owner is not None and fi.kind != "staticmethod" and isinstance(f, ast.Attribute)) else 0
+                j = k - off
+                arg = c.args[j] if 0 <= j < len(c.args) else next((kw.value for kw in c.keywords if kw.arg == root), None)
+                if arg is None:
+                    continue
+                found_call = True
+                if _is_input_record(p, g, arg, layer, depth - 1):
+                    return True
+        return not found_call  # nobody in the layer calls it: assume the worst
+    # a local: bound from something that mentions an input's record?
+    for n in ast.walk(fi.node):
+        if isinstance(n, ast.Assign) and any(isinstance(x, ast.Name) and x.id == root for t in n.targets for x in ast.walk(t)) and mentions_record(n.value):
+            return True
+        if isinstance(n, (ast.For, ast.comprehension)) and any(isinstance(x, ast.Name) and x.id == root for x in ast.walk(n.target)) and mentions_record(n.iter):
+            return True
+    return False
 
 
 def _returns_record(raw: FuncInfo) -> bool:
@@ -585,6 +683,31 @@ def text_consumers_rule(ctx, rule: str):
             g = p.resolve_expr(fi.module, f)
         return g if isinstance(g, FuncInfo) else None
 
+    def helpers_of(fi, call):
+        """the functions of the code base a call may run: the one helper_of names; for a functools.singledispatch
+        dispatcher also the implementations registered on it; for a method called on some other object, the methods of
+        that name of the classes of the same module"""
+        g = helper_of(fi, call)
+        out = [g] if g is not None else []
+        if g is not None and g.owner is None and any(ast.unparse(d.func if isinstance(d, ast.Call) else d).endswith("singledispatch") for d in g.node.decorator_list):
+            for h in g.module.functions.values():
+                if any(isinstance(d, ast.Call) and isinstance(d.func, ast.Attribute) and d.func.attr == "register"
+                       and isinstance(d.func.value, ast.Name) and d.func.value.id == g.name for d in h.node.decorator_list):
+                    out.append(h)
+        f = call.func
+        if isinstance(f, ast.Attribute) and isinstance(f.value, ast.Name) and f.value.id in ("self", "cls") and fi.owner is not None:
+            # self.method(): what a subclass puts in its place runs as well
+            for sub_ in p.subclasses(fi.owner):
+                raw = sub_.attrs.get(f.attr)
+                if isinstance(raw, FuncInfo) and raw not in out:
+                    out.append(raw)
+        if g is None and isinstance(f, ast.Attribute) and not (isinstance(f.value, ast.Name) and f.value.id in ("self", "cls")):
+            for ci in fi.module.classes.values():
+                raw = ci.attrs.get(f.attr)
+                if isinstance(raw, FuncInfo) and raw.kind == "method":
+                    out.append(raw)
+        return out
+
     memo = {}
 
     def text_names(fi, depth=2, seed=frozenset()):
@@ -600,8 +723,7 @@ def text_consumers_rule(ctx, rule: str):
             if isinstance(v, ast.Call) and isinstance(v.func, ast.Name) and v.func.id == "str":
                 return True
             if isinstance(v, ast.Call) and depth > 0:
-                g = helper_of(fi, v)
-                if g is not None and text_names(g, depth - 1)[1]:
+                if any(text_names(g, depth - 1)[1] for g in helpers_of(fi, v)):
                     return True
             if isinstance(v, ast.Call) and isinstance(v.func, ast.Attribute) and v.func.attr in ("upper", "lower") and texty(v.func.value):
                 return True
@@ -638,13 +760,52 @@ def text_consumers_rule(ctx, rule: str):
     text_names(entry)
     funcs = [p.get_func(q) if q != entry.qualname else entry for q in []]
     todo = [entry]
-    for n in ast.walk(entry.node):
-        if isinstance(n, ast.Call):
-            g = helper_of(entry, n)
-            if g is not None and text_names(g)[1] and g not in todo:
-                todo.append(g)
+    k_ = 0
+    while k_ < len(todo) and len(todo) < 12:
+        f_ = todo[k_]
+        k_ += 1
+        for n in ast.walk(f_.node):
+            if isinstance(n, ast.Call):
+                for g in helpers_of(f_, n):
+                    if text_names(g)[1] and g not in todo:
+                        todo.append(g)
     if not any(text_names(f)[0] for f in todo):
         raise AnalysisError("%s: cannot find the text derived from the target" % entry.where())
+    def normalised_names(fn_node) -> set:
+        """locals only ever bound to <something>.upper() / .lower() / .casefold() (possibly doubled / sliced)"""
+        def norm(v) -> bool:
+            if isinstance(v, ast.Call) and isinstance(v.func, ast.Attribute) and v.func.attr in ("upper", "lower", "casefold") and not v.args:
+                return True
+            if isinstance(v, ast.BinOp):
+                return norm(v.left) or norm(v.right)
+            if isinstance(v, ast.Subscript):
+                return norm(v.value)
+            if isinstance(v, ast.IfExp):
+                return norm(v.body) and norm(v.orelse)
+            if isinstance(v, ast.Constant) and isinstance(v.value, str) and v.value == v.value.upper():
+                return True
+            return False
+        binds: Dict[str, list] = {}
+        for a in ast.walk(fn_node):
+            if isinstance(a, ast.Assign) and len(a.targets) == 1 and isinstance(a.targets[0], ast.Name):
+                binds.setdefault(a.targets[0].id, []).append(a.value)
+        out = set()
+        for _ in range(3):
+            for nm, vs in binds.items():
+                def normed(v):
+                    if norm(v):
+                        return True
+                    if isinstance(v, ast.Name):
+                        return v.id in out
+                    if isinstance(v, ast.BinOp):
+                        return normed(v.left) or normed(v.right)
+                    if isinstance(v, ast.Subscript):
+                        return normed(v.value)
+                    return False
+                if vs and all(normed(v) for v in vs):
+                    out.add(nm)
+        return out
+
     n_uses = 0
     seeded: Dict[str, set] = {}
     k_todo = 0
@@ -669,7 +830,13 @@ def text_consumers_rule(ctx, rule: str):
                         n, par = c1, c2
                 if isinstance(par, ast.Call) and n in par.args:
                     f = par.func
-                    ok = (isinstance(f, ast.Attribute) and f.attr in ("match", "fullmatch")) or (isinstance(f, ast.Name) and f.id in ("len", "str"))
+                    if isinstance(f, ast.Name):
+                        # match_at = self.regex.match, hoisted out of the scan loop
+                        binds = [a.value for a in ast.walk(fn) if isinstance(a, ast.Assign) and len(a.targets) == 1
+                                 and isinstance(a.targets[0], ast.Name) and a.targets[0].id == f.id]
+                        if len(binds) == 1 and isinstance(binds[0], ast.Attribute):
+                            f = binds[0]
+                    ok = (isinstance(f, ast.Attribute) and f.attr in ("match", "fullmatch", "search", "finditer")) or (isinstance(f, ast.Name) and f.id in ("len", "str"))
                     if not ok and ast.unparse(f) in ("functools.partial", "partial") and par.args and isinstance(par.args[0], ast.Attribute) \
                             and par.args[0].attr in ("match", "fullmatch") and n in par.args[1:]:
                         ok = True  # the compiled pattern's match, with the text bound in advance
@@ -695,6 +862,13 @@ def text_consumers_rule(ctx, rule: str):
                         and all(isinstance(o, (ast.Eq, ast.NotEq, ast.Is, ast.IsNot)) for o in par.ops):
                     ok = True  # comparison with a constant
                 n_uses += 1
+                if not ok and isinstance(n, ast.Name) and n.id in normalised_names(fn):
+                    # a literal pre-test on case-normalised text (`anchor in upper`, `upper.find(prefix, i)`): whether skipping on
+                    # its answer is equivalent to running the pattern depends on what the pattern can match -- not decided here
+                    raise AnalysisError("%s:%d: the searched text, case-normalised, is inspected outside the compiled pattern (`%s`): "
+                                        "whether this shortcut agrees with the pattern is a question about the pattern's language, "
+                                        "which the text-consumers rule does not decide"
+                                        % (fi.module.relpath, n.lineno, re.sub(r"\s+", " ", fi.module.segment(par) or "")[:80]))
                 r.ob(rule, "%s#%s@%s" % (fi.qualname, getattr(n, "id", "text"), re.sub(r"\W+", "", fi.module.segment(par) or "")[:50]), ok,
                      "the searched text is inspected outside the compiled pattern: `%s` (a shortcut on the raw text has its own letter-case and IUPAC semantics)"
                      % re.sub(r"\s+", " ", fi.module.segment(par) or "")[:100], "%s:%d" % (fi.module.relpath, n.lineno))
@@ -757,6 +931,37 @@ def order_independence_rule(ctx, rule: str):
                     _, g = p.class_attr_def(c_, par.func.attr)
                     if isinstance(g, FuncInfo) and g.kind not in ("classmethod", "staticmethod"):
                         g = None
+            if isinstance(g, ClassInfo):
+                # handed to the constructor of a helper class of the repository: kept on the object (self.x = param) and
+                # consumed as a whole by every method that reads self.x
+                ci_, init = g, p.class_attr_def(g, "__init__")[1]
+                if not isinstance(init, FuncInfo) or any(isinstance(x, ast.Starred) for x in par.args):
+                    return False
+                params = [x.arg for x in init.node.args.posonlyargs + init.node.args.args][1:]
+                k = par.args.index(node)
+                if k >= len(params):
+                    return False
+                me = init.node.args.args[0].arg
+                pm = parent_map(init.node)
+                kept = []
+                for u in [x for x in ast.walk(init.node) if isinstance(x, ast.Name) and x.id == params[k] and isinstance(x.ctx, ast.Load)]:
+                    pu = pm.get(id(u))
+                    if isinstance(pu, ast.Assign) and pu.value is u and len(pu.targets) == 1 and isinstance(pu.targets[0], ast.Attribute) \
+                            and isinstance(pu.targets[0].value, ast.Name) and pu.targets[0].value.id == me:
+                        kept.append(pu.targets[0].attr)
+                    elif not whole(u, pu, init.module, depth - 1):
+                        return False
+                for attr in kept:
+                    for m_ in ci_.attrs.values():
+                        if not isinstance(m_, FuncInfo) or not m_.node.args.args:
+                            continue
+                        me2 = m_.node.args.args[0].arg
+                        pm2 = parent_map(m_.node)
+                        for u in ast.walk(m_.node):
+                            if isinstance(u, ast.Attribute) and u.attr == attr and isinstance(u.value, ast.Name) and u.value.id == me2 and isinstance(u.ctx, ast.Load):
+                                if not whole(u, pm2.get(id(u)), m_.module, depth - 1):
+                                    return False
+                return True
             if isinstance(g, FuncInfo) and not any(isinstance(x, ast.Starred) for x in par.args):
                 params = [x.arg for x in g.node.args.posonlyargs + g.node.args.args]
                 if g.owner is not None and g.kind in ("method", "classmethod") and isinstance(par.func, ast.Attribute):
@@ -1180,12 +1385,23 @@ def read_set_rule(ctx, rule: str, records):
     for node in ast.walk(m.tree):
         for ch in ast.iter_child_nodes(node):
             parents[id(ch)] = node
+    from .roles import citation_private_helpers
+
+    inside_rewrite = {id(f.node) for f in pair} | {id(f.node) for f in layer_functions(p) if id(f) in citation_private_helpers(p)}
     for node in ast.walk(m.tree):
         if isinstance(node, ast.Attribute) and node.attr == "record" and isinstance(node.ctx, ast.Load):
             root, path = chain_of(node)
             par = parents.get(id(node))
             ok = False
             val = node
+            encl = node
+            while encl is not None and not isinstance(encl, (ast.FunctionDef, ast.AsyncFunctionDef)):
+                encl = parents.get(id(encl))
+            if encl is not None and id(encl) in inside_rewrite and root == "self" and not any(
+                    f.owner is not None and f.owner.name == "AssemblyManager" for f in pair if f.node is encl):
+                # the rewrite pair (or a helper only it runs) living on a small object wrapped around one record: that
+                # object's own `record` field *is* the citation rewrite's use of the record
+                continue
             # the records of the elements collected for a call: (elem.record for elem in self.elements), [..], map(...)
             while isinstance(par, (ast.GeneratorExp, ast.ListComp, ast.SetComp)) and par.elt is val:
                 val, par = par, parents.get(id(par))
